@@ -35,7 +35,7 @@ EXTENDS Integers, Sequences, FiniteSets, TLC
 
 CONSTANTS Deviations,     \* named departures of the code from the design that are switched on
           Fns,            \* the functions the generator may call (a subset of DOMAIN FT)
-          Pools,          \* "tiny" / "small": a few tokens per argument (exhaustive runs); "full": all of them; "doc": documented uses only
+          Pools,          \* "tiny" / "small": a few tokens per argument (exhaustive runs); "full": all of them; "doc": documented uses only; "refs": documented uses plus spare names
           MaxCalls, MinCalls, MaxDepth, MaxMisplaced,
           MaxTop,         \* at most this many top-level calls (the rest of the budget goes into nesting)
           MinKids         \* a func() does not return before it made this many calls (while the budget lasts)
@@ -548,17 +548,19 @@ SmallTok == {"-", "", "a", "zz", "a:X-A", "s1", "m1", "e1", "sc1", "nosuch", "T1
              "String", "nil", "wrongInt", "ArrT1", "CollR1", "plain", "fn", "nilfn", "few", "200", "404", "0", "default", "nov", "tiny",
              "/x/{a}", "/{zz}", "/x", "i", "s", "det", "struct", "k", "v", "file.txt", "/f", "301", "/r", "date", "^a+$", "1", "3600", "strict",
              "pkg", "application/json", "http://localhost:8080", "api:read", "Renamed", "u"}
-\* tokens that stand for arguments outside the documented use (nil, wrong type, wrong arity, empty or odd text, unknown names)
+\* tokens that stand for arguments outside the documented use (nil, wrong type, wrong arity, empty or odd text)
 OddTok == {"", "odd", "long", "nil", "wrongInt", "wrongStruct", "wrong", "many", "few", "nilfn", "badtag", "niltag", "baddesc", "badsummary", "badpos",
-           "posfew", "badscheme", "vnil", "ArrNil", "MapNilV", "MapMapKey", "MapT1S", "CollNil", "CollBad", "CollT1", "CollCollR1", "nNoSuch", "nosuch",
-           "-1", "99999", "0", "bad", "/{", "x", "/{a}/{a}", "::bad", "http://{", "{v1}", "ftp://x", "(", "[z-a]", "sbad", "struct", "mixed", "dup", "func",
-           "zz", "zz:X-Z", "nov", "/{zz}", "/{*w}", "two", "T2", "R2", "e2", "sc2", "s2", "m2", "h2", "b"}
+           "posfew", "badscheme", "vnil", "ArrNil", "MapNilV", "MapMapKey", "MapT1S", "CollNil", "CollBad", "CollT1", "CollCollR1", "nNoSuch",
+           "-1", "99999", "0", "bad", "/{", "x", "/{a}/{a}", "::bad", "http://{", "{v1}", "ftp://x", "(", "[z-a]", "sbad", "struct", "mixed", "dup", "func"}
+\* tokens for second names (a program that uses them usually refers to something it does not declare)
+SpareTok == {"zz", "zz:X-Z", "nov", "/{zz}", "/{*w}", "two", "T2", "R2", "e2", "sc2", "s2", "m2", "h2", "b", "nosuch"}
 TinyTok == {"-", "a", "zz", "s1", "m1", "e1", "sc1", "nosuch", "T1", "R1", "api1", "plain", "fn", "200", "404", "tiny", "nov", "/x/{a}", "/{zz}",
             "txt", "url", "i", "s", "v", "k", "1", "date", "det", "struct", "Renamed", "u", "srv1", "h1", "v1", "pkg", "file.txt", "/f", "/r", "301",
             "application/json", "http://localhost:8080", "api:read", "3600", "strict", "^a+$", "email"}
 Pool(S) == IF Pools = "full" THEN S
            ELSE IF Pools = "tiny" THEN (LET I == S \cap TinyTok IN IF I = {} THEN {CHOOSE x \in S : TRUE} ELSE I)
-           ELSE IF Pools = "doc" THEN (IF S \ OddTok = {} THEN S ELSE S \ OddTok)
+           ELSE IF Pools = "doc" THEN (IF S \ (OddTok \cup SpareTok) = {} THEN S ELSE S \ (OddTok \cup SpareTok))
+           ELSE IF Pools = "refs" THEN (IF S \ OddTok = {} THEN S ELSE S \ OddTok)
            ELSE LET I == S \cap SmallTok IN IF I = {} THEN {CHOOSE x \in S : TRUE} ELSE I
 
 ---------------------------------------------------------------------------
@@ -573,7 +575,9 @@ RECURSIVE Chain(_, _)
 Chain(ns, i) == IF i = 0 THEN {} ELSE {i} \cup Chain(ns, ns[i].p)
 Documented(ns, i) == CtxAtD(ns, i) \in FT[ns[i].f].doc
 \* node i and all its ancestors are documented uses, and the ancestors really run their children
-WellPlaced(ns, i) == \A k \in Chain(ns, i) : Documented(ns, k) /\ (k # i => ns[k].v \in OpenVars)
+\* (a second API(...) silently replaces the first, whose function then never runs: calls under a repeated API are not judged)
+WellPlaced(ns, i) == \A k \in Chain(ns, i) : /\ Documented(ns, k) /\ (k # i => ns[k].v \in OpenVars)
+                                             /\ (ns[k].f = "API" => \A j \in Idx(ns) : ns[j].f = "API" => j = k)
 \* a well-formed program (what the trace specification requires of a logged program)
 WFProgram(ns) == \A i \in Idx(ns) :
    /\ ns[i].f \in AllFns
@@ -706,7 +710,8 @@ Match(ns, i, p) == /\ ns[i].f \in p.fs
                    /\ (p.ns = AnyTok \/ ns[i].n \in p.ns) /\ (p.ts = AnyTok \/ ns[i].t \in p.ts) /\ (p.vs = AnyTok \/ ns[i].v \in p.vs)
                    /\ (p.ctxs = AnyTok \/ CtxAtD(ns, i) \in p.ctxs)
 FieldFns == {"Field", "UsernameField", "PasswordField", "APIKeyField", "AccessTokenField", "TokenField"}
-WrapperFns == FieldFns \cup {"Username", "Password", "APIKey", "AccessToken", "Token"}
+WrapperFns == FieldFns \cup {"Username", "Password", "APIKey", "AccessToken", "Token", "ErrorName"}
+CookieAttrFns == {"CookieMaxAge", "CookieDomain", "CookiePath", "CookieSecure", "CookieHTTPOnly", "CookieSameSite"}
 Defined(ns, tok) == TypeNodes(ns, tok) \cup RTNodes(ns, tok) # {}
 CrashPats ==
   \* dsl.Server reports the misuse and then dereferences the nil API
@@ -716,7 +721,11 @@ CrashPats ==
   \* Default(nil) / Enum(nil) on an object, array or map attribute: reflect.TypeOf(nil).Kind()
   ("crash.iscompatible_nil"    :> Pat({"Default", "Enum"}, AnyTok, {"nil", "mixed"}, AnyTok, AnyTok)) @@
   \* Field / Username / Token ... wrap the caller's func() without the nil check eval.Execute has
-  ("crash.nil_dsl_in_wrapper"  :> Pat(WrapperFns, AnyTok, AnyTok, {"nilfn"}, AnyTok))
+  ("crash.nil_dsl_in_wrapper"  :> Pat(WrapperFns, AnyTok, AnyTok, {"nilfn"}, AnyTok)) @@
+  \* CookieMaxAge & co. dereference the response's cookies, which are nil until Cookie(...) ran
+  ("crash.cookie_attribute_without_cookie" :> Pat(CookieAttrFns, AnyTok, AnyTok, AnyTok, AnyTok)) @@
+  \* Metadata / Trailers / (gRPC) Headers whose function defines no attribute: NewMappedAttributeExpr panics on the nil type
+  ("crash.mapped_attribute_empty_dsl" :> Pat({"Metadata", "Trailers", "Headers"}, AnyTok, AnyTok, AnyTok, AnyTok))
 PatDevs == DOMAIN CrashPats
 Triggered(d, ns) ==
   CASE d \in PatDevs -> \E i \in Idx(ns) : Match(ns, i, CrashPats[d])
@@ -731,10 +740,15 @@ Triggered(d, ns) ==
          \E i, j \in Idx(ns) : /\ ns[i].f = "View" /\ ns[i].p # 0 /\ ns[ns[i].p].f \in ResultFs
                                /\ ns[j].f \in {"Header", "Cookie", "Body"} /\ ns[j].p # 0 /\ ns[ns[j].p].f = "Response"
     \* cyclic Extend / Reference: AttributeExpr.Find recurses without a guard
+    \* View("v") directly in a ResultType / CollectionOf function names a view nobody validates: Finalize panics in useExplicitView
+    [] d = "crash.unknown_view_on_result_type" ->
+         \/ \E i \in Idx(ns) : ns[i].f = "View" /\ ns[i].v = "plain" /\ ns[i].p # 0 /\ ns[ns[i].p].f \in {"ResultType", "Attributes"}
+         \/ \E i \in Idx(ns) : ns[i].t = "CollFn"
     [] d = "crash.base_cycle" ->
          \E i \in Idx(ns) : ns[i].f \in {"Extend", "Reference"} /\ ns[i].t \in UserToks /\ Defined(ns, ns[i].t)
     [] OTHER -> FALSE
-CrashDevs == PatDevs \cup {"crash.extend_reference_nil", "crash.service_redefined_nil_dsl", "crash.response_attr_not_in_view", "crash.base_cycle"}
+CrashDevs == PatDevs \cup {"crash.extend_reference_nil", "crash.service_redefined_nil_dsl", "crash.response_attr_not_in_view", "crash.base_cycle",
+                         "crash.unknown_view_on_result_type"}
 AcceptDevs == {"accept.request_mapping", "accept.response_mapping", "accept.grpc_mapping", "accept.scheme", "accept.view", "accept.error_response"}
 KindOfAccept(d) == CASE d = "accept.request_mapping" -> "request_mapping" [] d = "accept.response_mapping" -> "response_mapping"
                      [] d = "accept.grpc_mapping" -> "grpc_mapping" [] d = "accept.scheme" -> "scheme"
@@ -774,6 +788,8 @@ Init == /\ nodes = <<>> /\ stack = <<>> /\ pc = "mode" /\ mode = "-" /\ cur = No
         /\ outcome = NoOutcome /\ later = "-"
 
 TopCalls == Cardinality({i \in Idx(nodes) : nodes[i].p = 0})
+CanBegin == /\ Len(nodes) < MaxCalls /\ (stack = <<>> => TopCalls < MaxTop)
+            /\ (WellFns(CurCtx) # {} \/ (nmis < MaxMisplaced /\ MisFns(CurCtx) # {}))
 Begin(m) == /\ pc = "mode" /\ Len(nodes) < MaxCalls /\ (stack = <<>> => TopCalls < MaxTop)
             /\ IF m = "well" THEN WellFns(CurCtx) # {} ELSE nmis < MaxMisplaced /\ MisFns(CurCtx) # {}
             /\ mode' = m /\ pc' = "f"
@@ -783,7 +799,19 @@ ChooseF == /\ pc = "f"
            /\ pc' = "n" /\ UNCHANGED <<nodes, stack, mode, nmis, outcome, later>>
 ChooseN == /\ pc = "n" /\ \E n \in Pool(FT[cur.f].ns) : cur' = [cur EXCEPT !.n = n]
            /\ pc' = "t" /\ UNCHANGED <<nodes, stack, mode, nmis, outcome, later>>
-ChooseT == /\ pc = "t" /\ \E t \in Pool(FT[cur.f].ts) : cur' = [cur EXCEPT !.t = t]
+\* Declare / Refer: the user types a type token refers to, and the ones declared so far.  With the "doc" and "refs" pools
+\* a call only refers to types that an earlier top-level call declared (steering only: goa resolves names late).
+TokNeeds(t) == CASE t \in {"T1", "nT1", "ArrT1", "ArrnT1", "MapST1", "MapT1S", "CollT1"} -> {"T1"}
+                 [] t \in {"T2", "nT2"} -> {"T2"}
+                 [] t \in {"R1", "nR1", "CollR1", "CollnR1", "CollCollR1", "CollFn"} -> {"R1"}
+                 [] t \in {"R2", "CollR2"} -> {"R2"}
+                 [] OTHER -> {}
+DeclaredTypes == {nodes[i].n : i \in {j \in Idx(nodes) : nodes[j].f \in {"Type", "ResultType"} /\ nodes[j].p = 0}}
+Referable(f) == LET P == Pool(FT[f].ts) IN
+                IF Pools \in {"doc", "refs"} /\ f \notin {"Extend", "Reference"}
+                THEN (LET Q == {t \in P : TokNeeds(t) \subseteq DeclaredTypes} IN IF Q = {} THEN P ELSE Q)
+                ELSE P
+ChooseT == /\ pc = "t" /\ \E t \in Referable(cur.f) : cur' = [cur EXCEPT !.t = t]
            /\ pc' = "c" /\ UNCHANGED <<nodes, stack, mode, nmis, outcome, later>>
 \* does the call pass a func() that runs children ("open") or not: chosen first, so that half of the calls nest
 ClosedTop == Cardinality({i \in Idx(nodes) : nodes[i].p = 0 /\ nodes[i].v \notin OpenVars})
@@ -801,10 +829,10 @@ Call == /\ pc = "v"
         /\ pc' = "mode" /\ cur' = NoCall /\ mode' = "-" /\ UNCHANGED <<outcome, later>>
 \* the func() of the innermost open call returns
 Return == /\ pc = "mode" /\ stack # <<>>
-          /\ (Cardinality(KidsOf(nodes, CurNode)) >= MinKids \/ Len(nodes) >= MaxCalls)
+          /\ (Cardinality(KidsOf(nodes, CurNode)) >= MinKids \/ ~CanBegin)
           /\ stack' = SubSeq(stack, 1, Len(stack) - 1)
           /\ UNCHANGED <<nodes, pc, mode, cur, nmis, outcome, later>>
-Finish == /\ pc = "mode" /\ stack = <<>> /\ (Len(nodes) >= MinCalls \/ TopCalls >= MaxTop) /\ Len(nodes) >= 1 /\ pc' = "ready"
+Finish == /\ pc = "mode" /\ stack = <<>> /\ (Len(nodes) >= MinCalls \/ ~CanBegin) /\ Len(nodes) >= 1 /\ pc' = "ready"
           /\ UNCHANGED <<nodes, stack, mode, cur, nmis, outcome, later>>
 OutcomeSpace == {[kind |-> "accepted", nErrs |-> 0, allNamed |-> TRUE]}
                 \cup [kind : {"rejected"}, nErrs : {0, 1, 2}, allNamed : BOOLEAN]
